@@ -35,6 +35,10 @@ const POOL: &[&[u8]] = &[
     // the faulty unit looks like ('#2' and a newline is not the beginning of a block)
     b"B?;A:K #2\n",
     b"Z #9\n",
+    // a faulty message with a block whose length field is zero-padded and whose data is a quote
+    b"Z #3001\"\n",
+    // a common command in front of a query
+    b"*R;B?\n",
 ];
 
 /// Lockstep expectation: (offset behind the terminator, number of handler calls) of every
